@@ -722,7 +722,10 @@ pub fn run_check(
         // Observations of a real OS process (the shipped binary with its own, uncontrolled hash
         // seed) are the one thing a tape does not pin down: when such a process is itself
         // non-deterministic the difference shows again only with some probability.
-        let uncontrolled = c.violation.rule.ends_with("/real-process");
+        // The same holds for every difference C13 sees between its simulated processes: if it
+        // does not repeat from the tape, something the tape does not hold (an address, a pid,
+        // the wall clock) reached the output, which is what that property forbids.
+        let uncontrolled = c.violation.rule.ends_with("/real-process") || id == "C13";
         if confirmed.is_none() && uncontrolled {
             for _ in 0..8 {
                 confirmed = reproduces(check, &mut server, &tape, &key, per);
@@ -732,7 +735,7 @@ pub fn run_check(
             }
             if confirmed.is_none() {
                 let mut v = c.violation.clone();
-                v.detail = format!("{}\n(seen once in the batch; eight re-executions of the tape did not show it again: the shipped binary is an OS process with an uncontrolled hash seed, so this replay is probabilistic)", v.detail);
+                v.detail = format!("{}\n(seen once in the batch; eight re-executions of the tape did not show it again: something the tape does not pin down - the hash seed, addresses or clock of a real OS process - decided this output, so this replay is probabilistic)", v.detail);
                 confirmed = Some((v, None));
                 harness_warnings.push(format!("run {}: a {} observation did not repeat in 9 re-executions", c.index, c.violation.rule));
             }
